@@ -9,7 +9,7 @@ for n in 1 2 3 4; do
   name=$id$let-$n
   res=$(cd /verif && ./tools_seed.sh $id $src $name)
   echo "$res"
-  if echo "$res" | grep -q "demo_clean=0 " && ! echo "$res" | grep -q "demo_patched=0 " && echo "$res" | grep -q "176 passed" && ! echo "$res" | grep -q "failed"; then
+  if echo "$res" | grep -q "demo_clean=0 " && ! echo "$res" | grep -q "demo_patched=0 " && echo "$res" | grep -q "176 passed" && ! echo "$res" | grep -q "[0-9] failed"; then
     python3 /verif/tools_keepseed.py $id $n $name $src
   else
     echo "NOT-KEPT $name"
